@@ -204,6 +204,59 @@ func run(c *mc.Ctx, r *mc.Result) {
 	// the same with two fixed hostname routes whose hosts extend "a.b" by '-' and by '.': the node that
 	// ends the host "a.b" then has the edges '-', '.' and '/' (three children sorting around '/')
 	runWith(c, r, "pool.siblings", []string{"a.b-c/a", "a.b.c/a"})
+	runLong(c, r)
+}
+
+// runLong: hostnames at and beyond the usual length limits. The router accepts static hostnames up to 255 bytes
+// and does not count {param} placeholders, so Hosts of 250..260 bytes can equal a registered pattern label for
+// label; they must select it like any other Host (and near misses must not).
+func runLong(c *mc.Ctx, r *mc.Result) {
+	if c.Shard != 0 {
+		return
+	}
+	label := func(n int, ch byte) string { return strings.Repeat(string(ch), n) }
+	var sets [][]string
+	var hosts []string
+	for _, total := range []int{250, 253, 254, 255} {
+		// four labels, the last one sized to reach the total
+		h := label(63, 'a') + "." + label(63, 'b') + "." + label(63, 'c') + "." + label(total-192, 'd')
+		sets = append(sets, []string{h + "/", "/"}, []string{h + "/a", h + "/", "/a"})
+		hosts = append(hosts, h, h+":8080", h+".", h+".:80", h[:len(h)-1], h+"d", "x"+h[1:])
+	}
+	sets = append(sets, []string{"{a}.{b}.{c}.{d}.b/", "/"}, []string{"{a}.{b}.{c}.{d}/a", "/a", "/"})
+	for _, last := range []int{57, 58, 59, 60, 63} {
+		h := label(63, 'a') + "." + label(63, 'b') + "." + label(63, 'c') + "." + label(last, 'd')
+		hosts = append(hosts, h, h+".b", h+".b:80", h+".b.", h+".c")
+	}
+	r.Bounds["long"] = fmt.Sprintf("%d route sets with hostnames of 250..255 bytes and four-parameter hostnames x %d Hosts of 249..260 bytes (exact, port, trailing dot, one byte short/long/different) x paths / and /a", len(sets), len(hosts))
+	for _, pats := range sets {
+		var set []rsx.RouteSpec
+		for _, p := range pats {
+			set = append(set, rsx.RouteSpec{Method: "GET", Pattern: p})
+		}
+		e, err := rsx.Build(set, rsx.Profile{})
+		if err != nil {
+			r.Count("sets_rejected_by_router", 1)
+			continue
+		}
+		r.States++
+		for _, h := range hosts {
+			for _, p := range []string{"/", "/a"} {
+				rq := rsx.Req{Method: "GET", Host: h, Path: p}
+				abst, nontriv, class, msg := eval(e, rq)
+				r.Evaluations++
+				if abst {
+					r.Abstained++
+				}
+				if nontriv {
+					r.DistinctNontrivial++
+				}
+				if class != "" {
+					r.Violate("hosts", class, msg, Case{Set: set, Req: rq})
+				}
+			}
+		}
+	}
 }
 
 func runWith(c *mc.Ctx, r *mc.Result, boundName string, always []string) {
